@@ -13,7 +13,7 @@
 import math
 from fractions import Fraction
 
-FLOOR = 60 / 200 * 0.25          # the codec's documented minimum performed duration (seconds)
+FLOOR = 0.0                      # (was 60/200*0.25: the codec raised shorter durations to that value, a hack for negative durations; repaired, every positive duration is judged)
 
 
 def index_ids(ids):
